@@ -11,9 +11,54 @@ use crate::error::Result;
 ///
 /// On native platforms, uses tokio::time::sleep.
 /// On WASM, uses gloo_timers::future::TimeoutFuture.
-#[cfg(not(target_arch = "wasm32"))]
+#[cfg(all(not(target_arch = "wasm32"), not(kani)))]
 async fn sleep(duration: Duration) {
     tokio::time::sleep(duration).await;
+}
+
+/// Virtual clock for the Kani model checker: the requested delay is recorded instead of slept
+/// (tokio's timer needs a runtime, which the model checker cannot build).
+#[cfg(kani)]
+#[allow(clippy::unused_async)]
+async fn sleep(duration: Duration) {
+    verif_access::record(duration);
+}
+
+/// Verification access shims (compiled only by the Kani model checker).
+#[cfg(kani)]
+pub mod verif_access {
+    use std::sync::atomic::{AtomicU32, AtomicU64, AtomicUsize, Ordering};
+    use std::time::Duration;
+
+    /// Capacity of the sleep recorder.
+    pub const CAP: usize = 8;
+    static COUNT: AtomicUsize = AtomicUsize::new(0);
+    static SECS: [AtomicU64; CAP] = [const { AtomicU64::new(0) }; CAP];
+    static NANOS: [AtomicU32; CAP] = [const { AtomicU32::new(0) }; CAP];
+
+    /// Appends one requested delay (called by `super::sleep`).
+    pub fn record(d: Duration) {
+        let k = COUNT.load(Ordering::Relaxed);
+        assert!(k < CAP, "sleep recorder overflow");
+        SECS[k].store(d.as_secs(), Ordering::Relaxed);
+        NANOS[k].store(d.subsec_nanos(), Ordering::Relaxed);
+        COUNT.store(k + 1, Ordering::Relaxed);
+    }
+
+    /// Number of delays recorded since the last `reset`.
+    pub fn count() -> usize {
+        COUNT.load(Ordering::Relaxed)
+    }
+
+    /// The `k`-th recorded delay.
+    pub fn get(k: usize) -> Duration {
+        Duration::new(SECS[k].load(Ordering::Relaxed), NANOS[k].load(Ordering::Relaxed))
+    }
+
+    /// Clears the recorder.
+    pub fn reset() {
+        COUNT.store(0, Ordering::Relaxed);
+    }
 }
 
 #[cfg(target_arch = "wasm32")]
